@@ -3,7 +3,8 @@
 import json, os, subprocess, sys
 ROOT = os.path.dirname(os.path.dirname(os.path.abspath(__file__)))
 sys.path.insert(0, ROOT)
-from props import PROPS, NOT_APPLICABLE  # noqa
+from props import PROPS as _ALL, NOT_APPLICABLE, READY  # noqa
+PROPS = {k: v for k, v in _ALL.items() if k in READY}
 
 base = json.load(open("/root/.vp/BASELINE.json"))
 hooks_commits = subprocess.run("git -C /repo log --format=%H --grep='^verif hook' ", shell=True, capture_output=True, text=True).stdout.split()
